@@ -1606,7 +1606,8 @@ class QueryParamDict(OrderedMultiDict):
         for k, v in self.iteritems(multi=True):
             key = quote_query_part(to_unicode(k), full_quote=full_quote)
             if v is None:
-                ret_list.append(key)
+                # an empty key keeps its '=', or the pair vanishes on re-parse
+                ret_list.append(key or '=')
             else:
                 val = quote_query_part(to_unicode(v), full_quote=full_quote)
                 ret_list.append('='.join((key, val)))
